@@ -103,6 +103,30 @@ def _smith_schwartz_set(votes: Dict[Tuple[Candidate, Candidate], int],
     return copeland_ordering[:end_i]
 
 
+def _schwartz_set(votes: Dict[Tuple[Candidate, Candidate], int],
+                  ) -> List[Candidate]:
+    votes = _complete_pairs(votes)
+    # Same candidate ordering as the Smith set: by Copeland score.
+    copeland_scores = Copeland.scores(pairwise_wins(votes, include_ties=True))
+    copeland_ordering = list(sorted(
+        copeland_scores,
+        key=copeland_scores.get,
+        reverse=True,
+    ))
+    # Only strict defeats count; a tied or unranked pair is no defeat.
+    defeats = pairwise_wins(votes)
+    # A candidate belongs to the set if it has a beatpath back to every
+    # candidate that has a beatpath to it.
+    return [
+        cand for cand in copeland_ordering
+        if all(
+            RankedPairs._is_path(defeats, cand, other)
+            for other in copeland_ordering
+            if RankedPairs._is_path(defeats, other, cand)
+        )
+    ]
+
+
 class Selector:
     def evaluate(self,
                  votes: Dict[Tuple[Candidate, Candidate], int],
@@ -168,8 +192,8 @@ class SmithSet:
 class SchwartzSet:
     """Schwartz set selector.
 
-    The Schwartz set is the smallest possible non-empty set whose candidates
-    are pairwise unbeaten by all other candidates.
+    The Schwartz set is the union of the smallest possible non-empty sets
+    whose candidates are pairwise unbeaten by all other candidates.
     """
     def evaluate(self,
                  votes: Dict[Tuple[Candidate, Candidate], int],
@@ -181,7 +205,7 @@ class SchwartzSet:
             :class:`votelib.convert.RankedToCondorcetVotes`
             to produce them from ranked votes.
         """
-        return _smith_schwartz_set(votes, ties=False)
+        return _schwartz_set(votes)
 
 
 @simple_serialization
